@@ -63,6 +63,9 @@ pub fn affine_case(cx: &mut Ctx, n: u64, case: &Value) {
     }
     let tw = t0.compose_many(&[e1, e1]);
     chk("compose_many", "pre.compose_many([elem, elem])".into(), near(&entries(&tw), &mat(&case["twice"]), tol * 10.0), format!("{:?}", entries(&tw)));
+    let kk = AffineTransform::new(0.0, -1.0, 2.0, 1.0, 0.0, -1.0);
+    let tk = t0.compose_many(&[e1, kk]);
+    chk("compose_many", "pre.compose_many([elem, K])".into(), near(&entries(&tk), &mat(&case["then_k"]), tol * 10.0), format!("{:?}", entries(&tk)));
     chk("is_identity", "is_identity".into(), t1.is_identity() == (near(&post, &[1.0, 0.0, 0.0, 0.0, 1.0, 0.0], 0.0)) || !exact, String::new());
     // inverse: None exactly for singular matrices, otherwise the exact rational inverse
     let det = case["det"].as_f64().unwrap();
